@@ -1,8 +1,10 @@
 /-
   C05 — HTTP/2: every emitted frame is legal for the connection and stream state.
-  Property theorems over Model/H2.lean; helper lemmas in Proofs/H2.lean.
+  Property theorems over Model/H2.lean (frames) and Model/H2Reader.lean (octets, read segments);
+  helper lemmas in Proofs/H2.lean and Proofs/H2Reader.lean.
 -/
 import LtVerif.Proofs.H2
+import LtVerif.Proofs.H2Reader
 namespace LtVerif.C05
 open LtVerif
 
@@ -106,12 +108,62 @@ theorem c05_error_stream_retired (cswin : Int) (budget : Nat) (s : Strm) (he : s
 /-! ## acknowledgements -/
 
 /-- a well-formed SETTINGS frame (stream 0, whole parameters) that raises no connection error
-    is acknowledged with exactly one SETTINGS ACK, sent after any RST_STREAM it caused -/
+    is answered with exactly one SETTINGS ACK and nothing else (a parameter that RFC 9113 makes
+    a connection error -- ENABLE_PUSH > 1, INITIAL_WINDOW_SIZE > 2^31-1 or taking any live
+    stream's window out of range, MAX_FRAME_SIZE out of range -- changes `goaway`) -/
 theorem c05_settings_acked (c : H2Conn) (ps : List (Nat × Nat))
     (hok : (applySettings c ps).1.goaway = c.goaway) (hg : c.goaway ≤ 0) :
-    (recvSettings c false 0 ps 0).2 = (applySettings c ps).2 ++ [Out.settingsAck] := by
+    (recvSettings c false 0 ps 0).2 = [Out.settingsAck] := by
   unfold recvSettings
-  simp [hok, hg]
+  simp [hok, hg, applySettings_quiet ps c hg hok]
+
+/-- RFC 9113 6.9.2: a SETTINGS_INITIAL_WINDOW_SIZE change that would take the send window of ANY
+    live stream above 2^31-1 is a connection error FLOW_CONTROL_ERROR, and no ACK is sent -/
+theorem c05_settings_window_overflow (c : H2Conn) (v : Nat) (rest : List (Nat × Nat)) (hv : (v : Int) ≤ int32Max)
+    (hg : c.goaway = 0) (hov : c.streams.any (fun s => s.live && winOverflows s.swin ((v : Int) - c.initWin)) = true) :
+    applySettings c ((4, v) :: rest) = sendGoaway c E.flowControl ∧
+    Out.goaway c.cid E.flowControl ∈ (recvSettings c false 0 ((4, v) :: rest) 0).2 ∧
+    Out.settingsAck ∉ (recvSettings c false 0 ((4, v) :: rest) 0).2 := by
+  have hnv : ¬ (v : Int) > int32Max := by omega
+  have happ : applySettings c ((4, v) :: rest) = sendGoaway c E.flowControl := by
+    simp [applySettings, hnv, hov]
+  have hgo : (sendGoaway c E.flowControl).1.goaway = (E.flowControl : Int) :=
+    sendGoaway_goaway c E.flowControl (by decide) (by omega)
+  have hres : goawayResets c E.flowControl =
+      ((c.streams.filter (·.st ≠ .closed)).foldl (fun c s => rstState c s.id) c, []) := by
+    simp [goawayResets, hg, E.flowControl]
+  have hcid : ∀ (l : List Strm) (c' : H2Conn), (l.foldl (fun c s => rstState c s.id) c').cid = c'.cid ∧
+      (l.foldl (fun c s => rstState c s.id) c').goaway = c'.goaway := by
+    intro l
+    induction l with
+    | nil => intro c'; exact ⟨rfl, rfl⟩
+    | cons x xs ih =>
+      intro c'
+      simp only [List.foldl_cons]
+      have h1 := ih (rstState c' x.id)
+      have h2 : (rstState c' x.id).cid = c'.cid ∧ (rstState c' x.id).goaway = c'.goaway := by
+        unfold rstState
+        split
+        · exact ⟨rfl, rfl⟩
+        · simp only [updStrm]; split <;> exact ⟨rfl, rfl⟩
+      exact ⟨h1.1.trans h2.1, h1.2.trans h2.2⟩
+  have hout : (sendGoaway c E.flowControl).2 = [Out.goaway c.cid E.flowControl] := by
+    unfold sendGoaway
+    simp only [hres]
+    have hc := hcid (c.streams.filter (·.st ≠ .closed)) c
+    have : ¬ ((List.foldl (fun c s => rstState c s.id) c (c.streams.filter (·.st ≠ .closed))).goaway ≠ 0 ∧
+        ((List.foldl (fun c s => rstState c s.id) c (c.streams.filter (·.st ≠ .closed))).goaway > 0 ∨
+          E.flowControl = 0)) := by
+      rw [hc.2, hg]; simp
+    rw [if_neg this]
+    simp only [List.nil_append, hc.1]
+  refine ⟨happ, ?_, ?_⟩
+  · unfold recvSettings
+    simp [happ, hout]
+  · have hpos : ¬ (sendGoaway c E.flowControl).1.goaway ≤ 0 := by rw [hgo]; decide
+    have hne : ¬ (sendGoaway c E.flowControl).1.goaway = c.goaway := by rw [hgo, hg]; decide
+    unfold recvSettings
+    simp [happ, hout, hpos, hne]
 
 /-- a PING (stream 0, 8 octets, not an ACK) is echoed with ACK; a PING ACK is not answered -/
 theorem c05_ping_echoed (c : H2Conn) : (recvPing c false 0 8).2 = [Out.pingAck] ∧ (recvPing c true 0 8).2 = [] := by
@@ -185,11 +237,251 @@ theorem c05_concurrency_invariant : ∀ (batches : List (List FrameIn)) (c : H2C
 
 theorem c05_advertised_concurrency : Extracted.h2MaxStreams = Extracted.h2AdvMaxConcurrent := by decide
 
+
+/-! ## octets: every split of the byte stream across reads -/
+
+/-- **Segmentation independence of the frame reader**: reading `a ++ b` at once gives the same
+    reader state and the same frames / errors as reading `a`, then `b` -- for every state and
+    every split. -/
+theorem c05_reader_segmentation (st : RSt) (a b : Bytes) :
+    readerFeed st (a ++ b) =
+      ((readerFeed (readerFeed st a).1 b).1, (readerFeed st a).2 ++ (readerFeed (readerFeed st a).1 b).2) :=
+  readerFeed_append st a b
+
+/-- ... hence for ANY two non-empty lists of read segments with the same concatenation -/
+theorem c05_reader_segmentation_all (st : RSt) (x y : Bytes) (xs ys : List Bytes)
+    (h : (x :: xs).flatten = (y :: ys).flatten) :
+    readerFeedSegs st (x :: xs) = readerFeedSegs st (y :: ys) := by
+  rw [readerFeedSegs_cons, readerFeedSegs_cons]
+  simp only [List.flatten_cons] at h
+  rw [h]
+
+/-- **Round trip**: for every list of well-formed raw frames within the advertised
+    SETTINGS_MAX_FRAME_SIZE (HEADERS carrying END_HEADERS; CONTINUATION chains: next theorem),
+    reading their serialisation yields exactly those frames, in order, and leaves an empty buffer -/
+theorem c05_reader_roundtrip (fs : List RawFrame) (hw : ∀ f ∈ fs, WfRaw readerMaxFrame f) :
+    readerFeed {} (fs.flatMap serialize) = (⟨[], false⟩, fs.map fun f => REv.frame f 0) := by
+  unfold readerFeed
+  simp only [Bool.false_eq_true, if_false, List.nil_append, List.length_nil, Nat.zero_add]
+  exact drain_frames readerMaxFrame (by decide) fs hw _ (Nat.le_refl _)
+
+/-- ... and by segmentation independence the same holds however the octets are cut -/
+theorem c05_reader_roundtrip_segmented (fs : List RawFrame) (hw : ∀ f ∈ fs, WfRaw readerMaxFrame f)
+    (x : Bytes) (xs : List Bytes) (h : (x :: xs).flatten = fs.flatMap serialize) :
+    readerFeedSegs {} (x :: xs) = (⟨[], false⟩, fs.map fun f => REv.frame f 0) := by
+  rw [readerFeedSegs_cons]
+  simp only [List.flatten_cons] at h
+  rw [h]
+  exact c05_reader_roundtrip fs hw
+
+/-- **CONTINUATION**: a header block cut into a HEADERS frame (no END_HEADERS, not padded) and
+    any number >= 1 of CONTINUATION frames on the same stream (the last with END_HEADERS, each
+    within the frame size limit, less than 64 KiB in all) is handed on as ONE HEADERS frame that
+    carries the concatenated block and END_HEADERS -/
+theorem c05_reader_continuation (sid flags : Nat) (hs : sid < 2147483648) (hfl : flags < 256)
+    (h4 : flagSet flags 4 = false) (h8 : flagSet flags 8 = false)
+    (p0 : Bytes) (ps : List Bytes) (hne : ps ≠ []) (hl : ∀ p ∈ p0 :: ps, p.length ≤ readerMaxFrame)
+    (h64 : 9 + p0.length + ((contFrames sid ps).flatMap serialize).length < 65536) :
+    readerFeed {} (serialize ⟨1, flags, sid, p0⟩ ++ (contFrames sid ps).flatMap serialize) =
+      (⟨[], false⟩, [REv.frame ⟨1, flags + 4, sid, p0 ++ ps.flatten⟩ ps.length]) := by
+  have hp := parseOne_continuation readerMaxFrame sid flags (by decide) hs hfl h4 h8 p0 ps hne hl [] h64
+  rw [List.append_nil] at hp
+  unfold readerFeed
+  simp only [Bool.false_eq_true, if_false, List.nil_append, List.length_nil, Nat.zero_add]
+  have hlen : (serialize (⟨1, flags, sid, p0⟩ : RawFrame) ++ (contFrames sid ps).flatMap serialize).length =
+      (8 + p0.length + ((contFrames sid ps).flatMap serialize).length) + 1 := by
+    simp only [List.length_append, serialize_length]; omega
+  have hdrop : (serialize (⟨1, flags, sid, p0⟩ : RawFrame) ++ (contFrames sid ps).flatMap serialize).drop
+      (9 + p0.length + ((contFrames sid ps).flatMap serialize).length) = [] := by
+    apply List.drop_eq_nil_of_le
+    simp only [List.length_append, serialize_length]; omega
+  rw [hlen]
+  simp only [drain, hp, hdrop]
+  cases (8 + p0.length + ((contFrames sid ps).flatMap serialize).length) <;> simp [drain, parseOne_nil]
+
+/-- ... and nothing but CONTINUATION may follow a HEADERS frame without END_HEADERS: the header
+    of any other frame type is a connection PROTOCOL_ERROR as soon as its 9 octets are there -/
+theorem c05_reader_continuation_required
+    (hh : RawFrame) (hhw : hh.ftype = 1 ∧ hh.flags < 256 ∧ hh.sid < 4294967296 ∧ hh.payload.length ≤ readerMaxFrame)
+    (h4 : flagSet hh.flags 4 = false) (hdr rest : Bytes) (h9 : hdr.length = 9) (hne : (fhdr hdr).ftype ≠ 9) :
+    parseOne readerMaxFrame (serialize hh ++ hdr ++ rest) = .err E.protocol 0 := by
+  have hlen : (serialize hh ++ hdr ++ rest).length = 9 + hh.payload.length + 9 + rest.length := by
+    simp only [List.length_append, serialize_length, h9]
+  have hs0 : slice (serialize hh ++ hdr ++ rest) 0 9 = hdr9 hh := by
+    have := slice_mid_hdr [] (hdr ++ rest) hh
+    simpa [List.append_assoc] using this
+  have hsn : slice (serialize hh ++ hdr ++ rest) (9 + hh.payload.length) 9 = hdr := by
+    unfold slice
+    rw [List.append_assoc, List.drop_left' (serialize_length hh), List.take_left' h9]
+  have hfh : fhdr (hdr9 hh) = ⟨hh.payload.length, hh.ftype, hh.flags, hh.sid⟩ :=
+    fhdr_hdr9 hh (by have := hhw.2.2.2; have : readerMaxFrame < 16777216 := by decide
+                     omega) (by rw [hhw.1]; decide) hhw.2.1 hhw.2.2.1
+  unfold parseOne
+  rw [hs0, hfh]
+  simp only
+  have c1 : ¬ (serialize hh ++ hdr ++ rest).length < 9 := by omega
+  have c2 : ¬ hh.payload.length > readerMaxFrame := by have := hhw.2.2.2; omega
+  have c3 : ¬ (serialize hh ++ hdr ++ rest).length < 9 + hh.payload.length := by omega
+  simp only [c1, c2, c3, if_false, hhw.1, h4, and_self, if_true]
+  have c4 : ¬ (serialize hh ++ hdr ++ rest).length < 9 + hh.payload.length + 9 := by omega
+  rw [show contFuel = 7281 + 1 from rfl, contScan]
+  simp only [c4, if_false, hsn, hne, ne_eq, not_false_eq_true, if_true]
+
+/-- **Oversize**: a frame header announcing more than the advertised SETTINGS_MAX_FRAME_SIZE is a
+    connection error FRAME_SIZE_ERROR as soon as its 9 octets are there (whatever follows, however
+    little of the payload has arrived), and nothing after it is ever parsed -/
+theorem c05_reader_oversize (st : RSt) (hdr rest : Bytes) (hb : st.buf = []) (hd : st.dead = false)
+    (h9 : hdr.length = 9) (hbig : (fhdr hdr).len > Extracted.h2AdvMaxFrameSize) :
+    readerFeed st (hdr ++ rest) = (⟨[], true⟩, [REv.err E.frameSize 0]) ∧
+    ∀ more, readerFeed ⟨[], true⟩ more = (⟨[], true⟩, []) := by
+  refine ⟨?_, fun more => by simp [readerFeed]⟩
+  unfold readerFeed
+  simp only [hd, hb, Bool.false_eq_true, if_false, List.nil_append, List.length_nil, Nat.zero_add]
+  have hl : (hdr ++ rest).length = (8 + rest.length) + 1 := by simp [List.length_append, h9]; omega
+  have hs : slice (hdr ++ rest) 0 9 = hdr := by
+    unfold slice; rw [List.drop_zero, List.take_left' h9]
+  have hp : parseOne readerMaxFrame (hdr ++ rest) = .err E.frameSize 0 := by
+    unfold parseOne
+    have h1 : ¬ (hdr ++ rest).length < 9 := by omega
+    simp only [h1, if_false, hs]
+    have h2 : (fhdr hdr).len > readerMaxFrame := hbig
+    simp [h2]
+  rw [hl]
+  simp [drain, hp]
+
+/-- **Padding** (h2_recv_data / h2_recv_headers): a Pad Length not smaller than the payload
+    length is a connection PROTOCOL_ERROR; otherwise exactly the Pad Length octet and the
+    padding are removed: `len - (1 + pad)` octets are credited to the request body of a DATA
+    frame, and the header block handed to HPACK is the payload without its first octet and its
+    last `pad` octets. -/
+theorem c05_reader_padding (dec : Bytes → HdrKind) (c : H2Conn) (f : RawFrame)
+    (hpad : flagSet f.flags 8 = true) (hg : ¬ c.goaway > 0) (hdead : c.dead = false) :
+    -- DATA
+    (f.ftype = 0 → u31 f.sid ≠ 0 → u31 f.sid ≤ c.cid →
+      (be (slice f.payload 0 1) ≥ f.payload.length →
+        recvFrame c (toFrameIn dec f) = sendGoaway c E.protocol) ∧
+      (be (slice f.payload 0 1) < f.payload.length → ∀ s, findStrm c (u31 f.sid) = some s →
+        recvFrame c (toFrameIn dec f) =
+          recvDataStream c s (u31 f.sid) f.payload.length
+            (f.payload.length - (1 + be (slice f.payload 0 1))) (flagSet f.flags 1))) ∧
+    -- HEADERS (without PRIORITY fields)
+    (f.ftype = 1 → flagSet f.flags 32 = false →
+      (f.payload.length < 1 + be (slice f.payload 0 1) → u31 f.sid % 2 = 1 →
+        recvFrame c (toFrameIn dec f) = sendGoaway c E.protocol) ∧
+      (1 + be (slice f.payload 0 1) ≤ f.payload.length →
+        toFrameIn dec f =
+          .headers (u31 f.sid)
+            (dec (slice f.payload 1 (f.payload.length - (1 + be (slice f.payload 0 1)))))
+            (flagSet f.flags 1) none false false)) := by
+  refine ⟨fun ht h0 hc => ⟨fun hge => ?_, fun hlt s hs => ?_⟩, fun ht hpr => ⟨fun hlt hodd => ?_, fun hle => ?_⟩⟩
+  · have hc' : ¬ c.cid < u31 f.sid := by omega
+    simp [toFrameIn, ht, hpad, recvFrame, hg, hdead, recvData, h0, hc', hge]
+  · have hc' : ¬ c.cid < u31 f.sid := by omega
+    have hnge : ¬ be (slice f.payload 0 1) ≥ f.payload.length := by omega
+    simp [toFrameIn, ht, hpad, recvFrame, hg, hdead, recvData, h0, hc', hnge, hs]
+  · have hne : ¬ u31 f.sid % 2 = 0 := by omega
+    simp [toFrameIn, ht, hdrFrame, hpad, hlt, recvFrame, hg, hdead, recvHeaders, hne]
+  · have hnlt : ¬ f.payload.length < 1 + be (slice f.payload 0 1) := by omega
+    simp [toFrameIn, ht, hdrFrame, hpad, hpr, hnlt]
+
+/-! ## octets: the connection-level statements -/
+
+/-- **The byte-level connection refines the frame-level one**: a step fed as ANY non-empty list
+    of read segments is the frame-level step `h2Step` on the frames (and reader errors) that the
+    reader extracts from the concatenated octets.  Every frame-level theorem above therefore
+    speaks about byte streams under every segmentation. -/
+theorem c05_bytes_refine_frames (dec : Bytes → HdrKind) (s : BConn) (x : Bytes) (xs : List Bytes) :
+    h2StepBytes dec s (x :: xs) =
+      (⟨(readerFeed s.rd (x ++ xs.flatten)).1,
+        (h2Step s.c ((readerFeed s.rd (x ++ xs.flatten)).2.flatMap (evFrames dec))).1⟩,
+       (h2Step s.c ((readerFeed s.rd (x ++ xs.flatten)).2.flatMap (evFrames dec))).2) := by
+  simp only [h2StepBytes, feedSegs_cons, feedSeg, h2Step]
+
+/-- **Outcome independent of the read segmentation**: two ways of cutting the same octets of a
+    step into reads give the same connection state and the same emitted frames -/
+theorem c05_step_segmentation (dec : Bytes → HdrKind) (s : BConn) (x y : Bytes) (xs ys : List Bytes)
+    (h : (x :: xs).flatten = (y :: ys).flatten) :
+    h2StepBytes dec s (x :: xs) = h2StepBytes dec s (y :: ys) := by
+  rw [c05_bytes_refine_frames, c05_bytes_refine_frames]
+  simp only [List.flatten_cons] at h
+  rw [h]
+
+/-- **Concurrency over byte streams**: whatever octets arrive in whatever read segments, the
+    server never tracks more streams than it advertised -/
+theorem c05_concurrency_invariant_bytes (dec : Bytes → HdrKind) :
+    ∀ (steps : List (List Bytes)) (s : BConn),
+      s.c.streams.length ≤ Extracted.h2MaxStreams →
+      (steps.foldl (fun s segs => (h2StepBytes dec s segs).1) s).c.streams.length ≤ Extracted.h2MaxStreams := by
+  intro steps
+  induction steps with
+  | nil => intro s h; simpa using h
+  | cons segs rest ih =>
+    intro s h
+    simp only [List.foldl_cons]
+    apply ih
+    simp only [h2StepBytes]
+    exact Nat.le_trans (processQuiesce_len_le _ _) (feedSegs_len_le dec segs s h)
+
+/-- **Connection errors are terminal for octets too**: once an error GOAWAY is out, no octet has
+    any effect (no frame is emitted, the connection state does not change); and a reader-level
+    error (FRAME_SIZE_ERROR / CONTINUATION errors) stops the reader for good -/
+theorem c05_conn_error_terminal_bytes (dec : Bytes → HdrKind) (s : BConn) (seg : Bytes)
+    (hg : s.c.goaway > 0) (hstop : s.c.stop = false) :
+    (feedSeg dec s seg).2 = [] ∧ (feedSeg dec s seg).1.c = s.c := by
+  have key : ∀ (fs : List FrameIn), recvBatch s.c fs = (s.c, []) := by
+    intro fs
+    induction fs with
+    | nil => rfl
+    | cons f fs ih =>
+      have hns : needsSlot s.c f = false := by
+        cases f <;> simp [needsSlot]
+        omega
+      simp [recvBatch, preSlot, hns, c05_conn_error_terminal_recv s.c f hg, postStop, hstop, ih]
+  simp [feedSeg, key]
+
 /-! non-vacuity -/
 example : (h2Step {} [.headers 1 (.request 200 10 0 false) true none false false]).2 =
     [.headers 1 200 false, .data 1 10 false, .data 1 0 true] := by decide
 example : (h2Step {} [.headers 1 (.request 200 10 0 false) true none false false,
                       .data 1 3 none true]).2 = [.rst 1 E.streamClosed, .windowUpdate 0 16384] := by decide
 example : (recvFrame {} (.ping false 0 8)).2 = [.pingAck] := by decide
+/-- a stream with a pending response whose window the client raised to 2^31-1 -/
+def exFull : H2Conn :=
+  { streams := [{ id := 1, st := .hcRemote, swin := 2147483647, reqLen := 0, status := 200, pending := 100000,
+                  headersSent := true }], cid := 1 }
+example : exFull.goaway = 0 ∧
+    (exFull.streams.any fun s => s.live && winOverflows s.swin (((65536 : Nat) : Int) - exFull.initWin)) = true := by decide
+example : (recvFrame exFull (.settings false 0 [(4, 65536)] 0)).2 = [.goaway 1 E.flowControl] := by decide
+example : (recvFrame exFull (.settings false 0 [(4, 65535)] 0)).2 = [.settingsAck] := by decide
+example : (applySettings exFull [(4, 65535)]).1.goaway = exFull.goaway ∧ exFull.goaway ≤ 0 := by decide
+
+/-! non-vacuity, octets -/
+def exPing : Bytes := [0,0,8, 6, 0, 0,0,0,0, 1,2,3,4,5,6,7,8]
+def exDec : Bytes → HdrKind := fun b => if b = [0x82] then .request 200 10 0 false else .hpackBad
+/-- HEADERS(stream 1, END_STREAM) without END_HEADERS, fragment [], + CONTINUATION(END_HEADERS) [0x82] -/
+def exReq : Bytes := [0,0,0, 1, 1, 0,0,0,1] ++ [0,0,1, 9, 4, 0,0,0,1, 0x82]
+
+example : readerFeed {} (exPing.take 5 ++ exPing.drop 5) = (⟨[], false⟩, [.frame ⟨6, 0, 0, [1,2,3,4,5,6,7,8]⟩ 0]) := by decide
+example : (readerFeed {} (exPing.take 5)).1 = ⟨exPing.take 5, false⟩ := by decide
+example : readerFeedSegs {} [exPing.take 1, exPing.drop 1 ++ exPing.take 12, exPing.drop 12] =
+    (⟨[], false⟩, [.frame ⟨6, 0, 0, [1,2,3,4,5,6,7,8]⟩ 0, .frame ⟨6, 0, 0, [1,2,3,4,5,6,7,8]⟩ 0]) := by decide
+example : WfRaw readerMaxFrame ⟨6, 0, 0, [1,2,3,4,5,6,7,8]⟩ := ⟨by decide, by decide, by decide, by decide, by decide⟩
+example : serialize ⟨6, 0, 0, [1,2,3,4,5,6,7,8]⟩ = exPing := by decide
+example : (fhdr [0,64,1, 0, 0, 0,0,0,1]).len > Extracted.h2AdvMaxFrameSize := by decide
+example : readerFeed {} ([0,64,1, 0, 0, 0,0,0,1] ++ exPing) = (⟨[], true⟩, [.err E.frameSize 0]) := by decide
+example : readerFeed {} exReq = (⟨[], false⟩, [.frame ⟨1, 5, 1, [0x82]⟩ 1]) := by decide
+example : exReq = serialize ⟨1, 1, 1, []⟩ ++ (contFrames 1 [[0x82]]).flatMap serialize := by decide
+example : parseOne readerMaxFrame (serialize ⟨1, 1, 1, []⟩ ++ exPing) = .err E.protocol 0 := by decide
+-- padded DATA: Pad Length 9 in a 5-octet payload; Pad Length 2 in a 5-octet payload
+example : flagSet 8 8 = true ∧ be (slice [9,1,2,3,4] 0 1) ≥ ([9,1,2,3,4] : Bytes).length := by decide
+example : toFrameIn exDec ⟨0, 9, 1, [2,100,100,0,0]⟩ = .data 1 5 (some 2) true := by decide
+example : toFrameIn exDec ⟨1, 0x0d, 1, [2,0x82,0,0]⟩ = .headers 1 (.request 200 10 0 false) true none false false := by decide
+-- a whole request arriving in three reads cut inside the frame headers
+example : (h2StepBytes exDec {} [exReq.take 4, (exReq.drop 4).take 9, exReq.drop 13]).2 =
+    [.headers 1 200 false, .data 1 10 false, .data 1 0 true] := by decide
+example : (h2StepBytes exDec {} [exReq]).2 = [.headers 1 200 false, .data 1 10 false, .data 1 0 true] := by decide
+-- after a connection error nothing is read
+example : ((h2StepBytes exDec {} [[0,0,0, 9, 4, 0,0,0,1] ++ exReq]).2, (h2StepBytes exDec {} [[0,0,0, 9, 4, 0,0,0,1] ++ exReq]).1.c.dead)
+    = ([.goaway 0 E.protocol], true) := by decide
 
 end LtVerif.C05
